@@ -46,7 +46,7 @@ func ZZ_TailEvents() {
 // ZZ_WatchSingle (C02): a single-resource watch on a collection at any write position delivers the
 // current state first and then exactly the later events of that resource, in order, ignoring other ids.
 func ZZ_WatchSingle() {
-	cfg, rounds := zzPickCfgWatch(9)
+	cfg, rounds := zzPickCfgWatch(7)
 	W := zzSymW(cfg)
 	c := zzCollectionAt(cfg, W, func(int64) resource.ID { return "y" })
 	present := verif.Choose("present", 2) == 1
